@@ -5,3 +5,7 @@ static const tmcg_openpgp_packet_ctx_t verif_zero_ctx;
 static inline void *verif_memset_ctx(void *p, int c, size_t n)
 { __CPROVER_assert(c == 0 && n == sizeof(tmcg_openpgp_packet_ctx_t), "model limit: memset is used to zero one packet context"); *(tmcg_openpgp_packet_ctx_t *)p = verif_zero_ctx; return p; }
 #define memset verif_memset_ctx
+/* ASSUMED, not proved (DESIGN.md section 8): the signature-packet decoder; any result, any context */
+unsigned char nondet_uchar(void);
+static inline tmcg_openpgp_byte_t PacketDecodeTag2_s(vec_u8 *pkt, int verbose, tmcg_openpgp_packet_ctx_t *out, notations_t *notations, vec_vec_u8 *embeddedsigs, vec_vec_u8 *recipientfprs)
+{ (void)pkt; (void)verbose; { tmcg_openpgp_packet_ctx_t h; *out = h; } notations->size = nondet_ulong(); embeddedsigs->size = nondet_ulong(); recipientfprs->size = nondet_ulong(); return nondet_uchar(); }
